@@ -59,6 +59,126 @@ func verif_Manager_Login(m *Manager, content *LoginContent) {
 	verif.Ensures(err == nil || ret == nil, "error_returns_no_content")
 }
 
+// Login, one arbitrary step of the chain (unbounded: the loop is cut at its
+// head, the step is checked for an arbitrary iteration and any number of
+// plugins): the plugin of this step - the list element the range statement is
+// at - is asked exactly once, for this operation, with the content as the
+// previous steps left it (a copy of it); afterwards the content is that
+// plugin's edit if it made one, and otherwise unchanged. Together with Go's
+// range semantics (every element once, in list = registration order) this is
+// the chain property for every length; the two-plugin units below spell it
+// out end to end (bounded, labelled).
+//
+//verif:loopbody (*~/pkg/plugin/server.Manager).Login 1 check=verifLoginStep args=p,content head=verifLoginHead headargs=content
+func verifLoginHead(content *LoginContent) *LoginContent { return content }
+func verifLoginStep(p Plugin, content *LoginContent, content0 *LoginContent) bool {
+	if !verif.CalledInIter(evHandle) {
+		return false
+	}
+	asked := verif.IterArg[Plugin](evHandle, 0) == p && verif.IterArg[string](evHandle, 2) == OpLogin &&
+		verif.IterArg[any](evHandle, 3) == any(*content0)
+	res := verif.IterRet[*Response](evHandle, 0)
+	if res.Unchange {
+		return asked && content == content0
+	}
+	edit, isEdit := verif.IterRet[any](evHandle, 1).(*LoginContent)
+	return asked && isEdit && content == edit
+}
+
+// NewProxy, one arbitrary step of the chain (unbounded, as for Login above).
+//
+//verif:loopbody (*~/pkg/plugin/server.Manager).NewProxy 1 check=verifNewProxyStep args=p,content head=verifNewProxyHead headargs=content
+func verifNewProxyHead(content *NewProxyContent) *NewProxyContent { return content }
+func verifNewProxyStep(p Plugin, content *NewProxyContent, content0 *NewProxyContent) bool {
+	if !verif.CalledInIter(evHandle) {
+		return false
+	}
+	asked := verif.IterArg[Plugin](evHandle, 0) == p && verif.IterArg[string](evHandle, 2) == OpNewProxy &&
+		verif.IterArg[any](evHandle, 3) == any(*content0)
+	res := verif.IterRet[*Response](evHandle, 0)
+	if res.Unchange {
+		return asked && content == content0
+	}
+	edit, isEdit := verif.IterRet[any](evHandle, 1).(*NewProxyContent)
+	return asked && isEdit && content == edit
+}
+
+// Ping, one arbitrary step of the chain (unbounded, as for Login above).
+//
+//verif:loopbody (*~/pkg/plugin/server.Manager).Ping 1 check=verifPingStep args=p,content head=verifPingHead headargs=content
+func verifPingHead(content *PingContent) *PingContent { return content }
+func verifPingStep(p Plugin, content *PingContent, content0 *PingContent) bool {
+	if !verif.CalledInIter(evHandle) {
+		return false
+	}
+	asked := verif.IterArg[Plugin](evHandle, 0) == p && verif.IterArg[string](evHandle, 2) == OpPing &&
+		verif.IterArg[any](evHandle, 3) == any(*content0)
+	res := verif.IterRet[*Response](evHandle, 0)
+	if res.Unchange {
+		return asked && content == content0
+	}
+	edit, isEdit := verif.IterRet[any](evHandle, 1).(*PingContent)
+	return asked && isEdit && content == edit
+}
+
+// NewWorkConn, one arbitrary step of the chain (unbounded, as for Login above).
+//
+//verif:loopbody (*~/pkg/plugin/server.Manager).NewWorkConn 1 check=verifNewWorkConnStep args=p,content head=verifNewWorkConnHead headargs=content
+func verifNewWorkConnHead(content *NewWorkConnContent) *NewWorkConnContent { return content }
+func verifNewWorkConnStep(p Plugin, content *NewWorkConnContent, content0 *NewWorkConnContent) bool {
+	if !verif.CalledInIter(evHandle) {
+		return false
+	}
+	asked := verif.IterArg[Plugin](evHandle, 0) == p && verif.IterArg[string](evHandle, 2) == OpNewWorkConn &&
+		verif.IterArg[any](evHandle, 3) == any(*content0)
+	res := verif.IterRet[*Response](evHandle, 0)
+	if res.Unchange {
+		return asked && content == content0
+	}
+	edit, isEdit := verif.IterRet[any](evHandle, 1).(*NewWorkConnContent)
+	return asked && isEdit && content == edit
+}
+
+// NewUserConn, one arbitrary step of the chain (unbounded, as for Login above).
+//
+//verif:loopbody (*~/pkg/plugin/server.Manager).NewUserConn 1 check=verifNewUserConnStep args=p,content head=verifNewUserConnHead headargs=content
+func verifNewUserConnHead(content *NewUserConnContent) *NewUserConnContent { return content }
+func verifNewUserConnStep(p Plugin, content *NewUserConnContent, content0 *NewUserConnContent) bool {
+	if !verif.CalledInIter(evHandle) {
+		return false
+	}
+	asked := verif.IterArg[Plugin](evHandle, 0) == p && verif.IterArg[string](evHandle, 2) == OpNewUserConn &&
+		verif.IterArg[any](evHandle, 3) == any(*content0)
+	res := verif.IterRet[*Response](evHandle, 0)
+	if res.Unchange {
+		return asked && content == content0
+	}
+	edit, isEdit := verif.IterRet[any](evHandle, 1).(*NewUserConnContent)
+	return asked && isEdit && content == edit
+}
+
+// CloseProxy, one arbitrary step (unbounded): every plugin of the list is told,
+// with this operation's name and the closing proxy's content - also after an
+// earlier plugin failed (the loop has no exit but the end of the list: see the
+// exit check) - and a failure is remembered for the report.
+//
+//verif:loopbody (*~/pkg/plugin/server.Manager).CloseProxy 1 check=verifCloseProxyStep args=p,content,errs head=verifCloseProxyHead headargs=errs
+func verifCloseProxyHead(errs []string) int { return len(errs) }
+func verifCloseProxyStep(p Plugin, content *CloseProxyContent, errs []string, n0 int) bool {
+	if !verif.CalledInIter(evHandle) {
+		return false
+	}
+	asked := verif.IterArg[Plugin](evHandle, 0) == p && verif.IterArg[string](evHandle, 2) == OpCloseProxy &&
+		verif.IterArg[any](evHandle, 3) == any(*content)
+	if verif.IterRet[error](evHandle, 2) != nil {
+		return asked && len(errs) == n0+1
+	}
+	return asked && len(errs) == n0
+}
+
+//verif:loopexit (*~/pkg/plugin/server.Manager).CloseProxy 1 check=verifCloseProxyNeverStopsEarly
+func verifCloseProxyNeverStopsEarly() bool { return false }
+
 // Login, two plugins (bounded: loop unrolled for a list of length 2): both are
 // consulted in registration order, the second sees the first one's edit, and
 // the server acts on the last edit.
@@ -452,4 +572,16 @@ func verif_httpPlugin_Handle(p *httpPlugin, ctx context.Context, op string, cont
 	// what a plugin removed from the content stays removed; nothing of what was
 	// sent is written into the value before the answer is decoded over it
 	verif.Ensures(verif.CallCount("reflect.New") == 1 && !verif.Called("reflect.Value).Set") && !verif.Called("reflect.Copy") && !verif.Called("reflect.Indirect"), "answer_decoded_into_an_empty_value")
+}
+
+// NewManager: six empty chains, each its own list - nothing registered yet, and
+// (structural obligation alias.*: a slice with room to grow is stored in one
+// place only) no two chains share a backing array, so that registering a
+// plugin for one operation can never write into the chain of another.
+//
+//verif:contract ~/pkg/plugin/server.NewManager
+//verif:props C15
+func verif_NewManager() {
+	m := NewManager()
+	verif.Ensures(m != nil && len(m.loginPlugins) == 0 && len(m.newProxyPlugins) == 0 && len(m.closeProxyPlugins) == 0 && len(m.pingPlugins) == 0 && len(m.newWorkConnPlugins) == 0 && len(m.newUserConnPlugins) == 0, "no_plugin_registered_for_any_operation")
 }
